@@ -192,4 +192,13 @@ def c04_8(c: Ctx) -> None:
     c09_8(c)
 
 
+@ob('C04.9', 'DOM', 'the awaited child is complete only when its own descendants are: every accepted event dispatched from a handler is registered as that handler\'s child (same obligation '
+    'as C09.9), by every dispatching entry point — a bulk / fast-path dispatch that skips the registration lets `await child` return a child whose descendants are still pending')
+def c04_9(c: Ctx) -> None:
+    from .c09 import check_child_registration_guards, check_dispatch_entry_points
+
+    check_child_registration_guards(c)
+    check_dispatch_entry_points(c)
+
+
 OBLIGATIONS = ob.obs
